@@ -823,6 +823,9 @@ def run_pauli(case):
     except ValueError:
         res["error"] = "ValueError"
         out = None
+    except Exception as e:
+        res["error"] = f"raised {type(e).__name__}: {e}"
+        out = None
     res["mutated"] = None if snapshot(c) == before else _diff(before, snapshot(c))
     if out is not None:
         ids = {id(g): i for i, g in enumerate(inp)}
@@ -870,7 +873,10 @@ def pauli_cases(run, rng, count):
             h = hashlib.sha1(json.dumps(case, sort_keys=True).encode()).hexdigest()[:10]
             stats["cases"] += 1
             run.case(["pauli", case], nontrivial=bool(case["gates"]))
-            if real["error"]:
+            if real["error"] and real["error"] != "ValueError":
+                agree = False
+                run.find(f"pauli:raises:{h}", "with_pauli_noise " + real["error"], {"case": case})
+            elif real["error"]:
                 stats["rejected"] += 1
                 agree = model is None
             else:
@@ -1053,7 +1059,23 @@ RULE = ("random circuits (n<=6: H/X/RX/CNOT/CZ/TOFFOLI/SWAP/RZZ on random non-as
         "with_pauli_noise maps (list / dict, wrong sizes, non-qubit keys, zero rows); nontrivial = at least one rule and one gate")
 
 
+def cap_findings(run, per_class=4):
+    """at most `per_class` findings per key family (text before the last ':'), so a systematic break does not
+    produce hundreds of VIOLATION lines"""
+    orig, count = run.find, {}
+
+    def find(key, what, replay=None, concrete=True):
+        fam = key.rsplit(":", 1)[0] if re.search(r":[0-9a-f]{10}$", key) else key
+        count[fam] = count.get(fam, 0) + 1
+        if count[fam] <= per_class:
+            orig(key, what, replay, concrete)
+        else:
+            run.notes["suppressed_duplicate_findings"] = {**run.notes.get("suppressed_duplicate_findings", {}), fam: count[fam] - per_class}
+    run.find = find
+
+
 def main(run):
+    cap_findings(run)
     rng = random.Random(run.seed)
     thorough = run.tier == "thorough"
     run.trusted += ["Coq 8.16.1 kernel, vm_compute",
@@ -1114,6 +1136,8 @@ def replay(run, data):
     if key.startswith("pauli:") or key.startswith("corr:pauli"):
         real = run_pauli(rp["case"])
         why = ([] if real["error"] else pauli_text_check(rp["case"], real)) + (["input mutated"] if real["mutated"] else [])
+        if real["error"] and real["error"] != "ValueError":
+            why.append(real["error"])
         if why or (not real["error"] and not real["skeleton"]):
             run.find(key, data.get("what", "") + " | " + "; ".join(why), rp)
         return run.finish(rule="replay of one recorded case")
